@@ -88,6 +88,22 @@ type boundaryCall struct {
 	caps   []string
 	funcs  []string
 	types_ []*types.Named
+	ifaces []types.Type // the interface type each of types_ was converted to
+	fnVals []*ssa.Function
+}
+
+var pureCallbackTakers = map[string]bool{"slices.ContainsFunc": true, "slices.IndexFunc": true}
+
+// implicitMethods: method names that code outside the module discovers by interface assertion
+// on a value of unknown type (fmt, errors, sort, encoding/*, io, the SDK's message validation).
+var implicitMethods = map[string]bool{
+	"String": true, "Error": true, "Format": true, "GoString": true, "Unwrap": true, "Is": true, "As": true,
+	"MarshalJSON": true, "UnmarshalJSON": true, "MarshalText": true, "UnmarshalText": true, "MarshalBinary": true, "UnmarshalBinary": true,
+	"Marshal": true, "MarshalTo": true, "MarshalToSizedBuffer": true, "Unmarshal": true, "Size": true, "Reset": true, "ProtoMessage": true, "XXX_Size": true, "XXX_Marshal": true,
+	"XXX_Unmarshal": true, "XXX_Merge": true, "XXX_DiscardUnknown": true, "Descriptor": true,
+	"MarshalAmino": true, "UnmarshalAmino": true, "MarshalAminoJSON": true, "UnmarshalAminoJSON": true, "MarshalYAML": true, "UnmarshalYAML": true,
+	"Len": true, "Less": true, "Swap": true, "Push": true, "Pop": true, "Write": true, "Read": true, "Close": true, "WriteTo": true, "ReadFrom": true,
+	"ValidateBasic": true, "Validate": true, "GetSigners": true, "GetSignBytes": true, "Route": true, "Type": true, "LogValue": true,
 }
 
 func (p *Prog) boundaryCalls() []boundaryCall {
@@ -137,18 +153,26 @@ func (p *Prog) boundaryCalls() []boundaryCall {
 						switch fv := v.(type) {
 						case *ssa.MakeClosure:
 							bc.funcs = append(bc.funcs, funcName(fv.Fn.(*ssa.Function)))
+							bc.fnVals = append(bc.fnVals, fv.Fn.(*ssa.Function))
 						case *ssa.Function:
 							bc.funcs = append(bc.funcs, funcName(fv))
+							bc.fnVals = append(bc.fnVals, fv)
 						default:
 							if _, isSig := v.Type().Underlying().(*types.Signature); isSig {
 								if cst, ok := v.(*ssa.Const); !ok || cst.Value != nil {
 									bc.funcs = append(bc.funcs, "a function value")
+									bc.fnVals = append(bc.fnVals, nil)
 								}
 							}
 						}
 						if _, isMI := a.(*ssa.MakeInterface); isMI || v != a {
 							if n := p.moduleNamed(v.Type()); n != nil {
 								bc.types_ = append(bc.types_, n)
+								var it types.Type
+								if mi, ok := a.(*ssa.MakeInterface); ok {
+									it = mi.Type()
+								}
+								bc.ifaces = append(bc.ifaces, it)
 							}
 						}
 					}
@@ -220,12 +244,38 @@ func boundaryObligation(p *Prog, r *Report) {
 		}
 		if len(bc.funcs) > 0 {
 			if _, ok := callbackCallees[bc.callee]; !ok {
-				fail(bc, "callback", "module code as a value ("+strings.Join(dedup(bc.funcs), ", ")+")")
+				// pure searches call their predicate and nothing else: an effect-free predicate is harmless
+				okPure := pureCallbackTakers[strings.SplitN(bc.callee, "[", 2)[0]]
+				if okPure {
+					for _, v := range bc.fnVals {
+						if v == nil || p.effectFree(v) != "" {
+							okPure = false
+						}
+					}
+				}
+				if !okPure {
+					fail(bc, "callback", "module code as a value ("+strings.Join(dedup(bc.funcs), ", ")+")")
+				}
 			}
 		}
-		for _, T := range bc.types_ {
+		for ti, T := range bc.types_ {
 			for _, m := range p.handWrittenMethods(T) {
 				if knownFuncs[funcName(m)] {
+					continue
+				}
+				// the callee can reach the methods of the interface it is handed, and those it may
+				// look for by assertion; other methods of the type are not callable from outside
+				reachable := implicitMethods[m.Name()]
+				if ti < len(bc.ifaces) && bc.ifaces[ti] != nil {
+					if it, ok := bc.ifaces[ti].Underlying().(*types.Interface); ok {
+						for i := 0; i < it.NumMethods(); i++ {
+							if it.Method(i).Name() == m.Name() {
+								reachable = true
+							}
+						}
+					}
+				}
+				if !reachable {
 					continue
 				}
 				if why := p.effectFree(m); why != "" {
@@ -435,6 +485,9 @@ func (p *Prog) externalCallees() map[string]ssa.Instruction {
 					}
 					if o := f.Origin(); o != nil {
 						f = o
+					}
+					if f.Synthetic != "" && f.Object() != nil && f.Object().Pkg() != nil && p.isModulePkgPath(f.Object().Pkg().Path()) {
+						continue // bound-method / thunk wrapper of a module function
 					}
 					n := funcName(f)
 					if _, dup := out[n]; !dup {
